@@ -465,7 +465,15 @@ func init() {
 	}
 	models[sc+"WithEventManager"] = func(e *Exec, a []Value) []Value {
 		c := ctxOf(e, a[0]).copy()
-		c.Em = a[1].(*EventMgr)
+		em := a[1]
+		if iv, ok := em.(IfaceV); ok {
+			em = iv.V
+		}
+		m, ok := em.(*EventMgr)
+		if !ok {
+			e.unsupported(fmt.Sprintf("WithEventManager(%T)", em))
+		}
+		c.Em = m
 		return []Value{c}
 	}
 	models[sc+"CacheContext"] = func(e *Exec, a []Value) []Value {
@@ -495,6 +503,8 @@ func init() {
 		return nil
 	}
 	models[em+"Events"] = func(e *Exec, a []Value) []Value { return evEvents(e, a) }
+	models[em+"ABCIEvents"] = func(e *Exec, a []Value) []Value { return evEvents(e, a) } // sdk.Event is abci.Event by definition
+	models["eventmgr.ABCIEvents"] = models[em+"ABCIEvents"]
 	models["eventmgr.EmitEvent"] = models[em+"EmitEvent"]
 	models["eventmgr.EmitEvents"] = models[em+"EmitEvents"]
 	models["eventmgr.Events"] = models[em+"Events"]
